@@ -322,8 +322,9 @@ func verifDenotes(n *verifNode) (verifVal, bool) {
 // ---- generation ---------------------------------------------------------------
 
 type verifGen struct {
-	nums, texts int
-	symbolic    bool // the focus leaf holds a symbolic digit / letter
+	callsInnermost bool
+	nums, texts    int
+	symbolic       bool // the focus leaf holds a symbolic digit / letter
 }
 
 var verifNumLeaves = []int{3, 2, 5, 4, 1, 6, 7, 9, 8}
@@ -390,7 +391,8 @@ func (g *verifGen) tree(t byte, depth int, siblingCalls int) *verifNode {
 	}
 	var menu []*verifKind
 	for i := range verifKinds {
-		if verifKinds[i].res == t {
+		// (quick tier: the innermost node of a three level tree is a function call; operators there are left to the thorough tier)
+		if verifKinds[i].res == t && (verifKinds[i].form == 'f' || !g.callsInnermost || depth > 1) {
 			menu = append(menu, &verifKinds[i])
 		}
 	}
@@ -466,10 +468,11 @@ func VerifC17_Grouping() {
 }
 
 // VerifC17_Nesting: three levels, with completed calls as sibling operands of
-// the root (an earlier call in the same expression), concrete operands.
+// the root (an earlier call in the same expression), concrete operands; in
+// the quick tier the innermost node is a function call.
 // cover: number, text, boolean
 func VerifC17_Nesting() {
-	g := &verifGen{}
+	g := &verifGen{callsInnermost: !zzverif.Thorough()}
 	t := verifResultTypes[zzverif.Choice("result-type", 3)]
 	verifCheckMigration(g.tree(t, 3, 1))
 }
